@@ -14,9 +14,9 @@ def check(run):
     if tv == 0:
         raise Inconclusive('vacuity twin found nothing')
     records = []
-    ml = 5 if thorough else 3
-    plans = [('run, whole message', {'entry': 'run', 'maxlen': ml, 'utf8': True}),
-             ('process, N = message length, a cut at every position + byte-at-a-time + all-at-once', {'entry': 'process', 'maxlen': ml, 'utf8': True}),
+    ml = 6 if thorough else 3
+    plans = [('run, whole message', {'entry': 'run', 'maxlen': ml, 'utf8': True, 'two_digit': thorough}),
+             ('process, N = message length, a cut at every position + byte-at-a-time + all-at-once', {'entry': 'process', 'maxlen': ml, 'utf8': True, 'two_digit': thorough}),
              ('process, N = message length + 3', {'entry': 'process', 'maxlen': ml, 'slack': 3, 'utf8': True})]
     for name, params in plans:
         st = run.explore('[A:B;] S|K <payload> [;C] LF: ' + name, SPEC + (params,), 3000 if thorough else 600)
